@@ -126,7 +126,7 @@ def gen_ham(rng, c):
 
 
 def gen_custom(rng):
-    if rng.random() < 0.5:
+    if rng.random() < 0.3:
         n_cells = [rng.randint(1, 4), rng.randint(1, 4)]
         r = rng.random()
         bc = True if r < 0.25 else False if r < 0.5 else [rng.random() < 0.5, rng.random() < 0.5]
@@ -328,7 +328,7 @@ def run(ctx):
     cases = corpus()
     while len(cases) < n:
         r = rng.random()
-        if r < 0.18:
+        if r < 0.3:
             c = gen_custom(rng)
         else:
             c = gen_lattice(rng, maxpts)
@@ -383,7 +383,7 @@ def run(ctx):
                                  "2^d, both orders) then seeded generator: 11 shapes, sizes up to 8 / 4x4 / 2x2x2 (grid incl. hidden "
                                  f"images <= {maxpts} points), boundary per direction, orders 1-3, random dyadic couplings "
                                  "(vectors per order and per-edge matrices), ~18% custom-edge lattices (kitaev, spin_hamiltonian), "
-                                 "~7% malformed arguments; non-trivial = accepted case with > 1 edge",
+                                 "~6% malformed arguments; non-trivial = accepted case with > 1 edge",
                          "input_distribution": hist})
     for c, o in list(zip(cases, obs))[:3]:
         ctx.sample({"case": {k: v for k, v in c.items() if k not in ("herm_max", "nx")}, "observed": o})
